@@ -12,15 +12,18 @@
     holder commitment). Branch order and error precedence follow the Rust.
 
     Commitment numbers count DOWN from [INITIAL] = 2^48 - 1, as in the Rust. The machine starts in
-    [ChannelState::ChannelReady] right after the [channel_ready] exchange: both sides hold
-    commitment number [INITIAL]; the next ones are [INITIAL - 1].
+    [ChannelState::AwaitingChannelReady] right after funding_created/funding_signed (optionally with
+    [WAITING_FOR_BATCH]): both sides hold commitment number [INITIAL]; the next ones are
+    [INITIAL - 1]. The [channel_ready] exchange ([FundedChannel::channel_ready] with its flag tests,
+    [check_get_channel_ready], [set_batch_ready]) is part of the machine.
 
     What is abstracted: HTLC/fee content (the environment says whether there is something to
-    commit), signature validity (a boolean in the operation), the shachain consistency check (a
+    commit), signature validity (booleans in the operation; the NUMBER of HTLC signatures versus
+    the number of non-dust HTLCs is explicit), the shachain consistency check (a
     boolean in the operation; its own theorems are in Proofs/C05Shachain.v), secp256k1
     ([pub : secret -> point] abstract). Not modelled: asynchronous signers, splicing / batched
     commitment_signed, quiescence, shutdown negotiation (a cooperative close signs no commitment
-    transaction), the funding handshake.
+    transaction), the messages before funding_signed.
 
     The correspondence with the real code is checked on every run by [h_revoke] (trace
     correspondence: same operations => same signer calls and same numbers/flags after every
@@ -47,12 +50,24 @@ Section Machine.
       [first_per_commitment_point] of the open/accept message). *)
   Inductive ev : Type :=
   | Release (k : Z)              (* release_commitment_secret(k) *)
-  | ValidateHolder (k : Z)       (* validate_holder_commitment(tx with number k) *)
+  | ValidateHolder (k nsig nnd : Z) (* validate_holder_commitment(tx with number k, nsig counterparty HTLC
+                                       signatures, nnd non-dust HTLCs) *)
   | SignCounterparty (k : Z)     (* sign_counterparty_commitment(tx with number k) *)
   | SignHolder (k : Z)           (* sign_holder_commitment(tx with number k) *)
   | ValidateRevocation (k : Z)   (* validate_counterparty_revocation(k, _) *)
   | StoreSecret (k : Z) (s : secret)
   | Announce (k : Z) (p : point).
+
+  (** [ChannelState]: [ChannelReady(_)] or [AwaitingChannelReady(flags)] with the three
+      [AwaitingChannelReadyFlags]; plus the secret stored for commitment number [INITIAL - 1],
+      which [channel_ready] re-derives with [commitment_secrets.get_secret(INITIAL_COMMITMENT_NUMBER - 1)]. *)
+  Record hstate : Type := mkHs {
+    chan_ready : bool;     (* matches!(channel_state, ChannelReady(_)) *)
+    our_ready : bool;      (* AwaitingChannelReadyFlags::OUR_CHANNEL_READY *)
+    their_ready : bool;    (* AwaitingChannelReadyFlags::THEIR_CHANNEL_READY *)
+    wfb : bool;            (* AwaitingChannelReadyFlags::WAITING_FOR_BATCH *)
+    sec1 : option secret
+  }.
 
   Record st : Type := mkSt {
     holder_next : Z;        (* holder_commitment_point.next_transaction_number() *)
@@ -65,22 +80,28 @@ Section Machine.
     raa_first : bool;       (* context.resend_order == RAACommitmentOrder::RevokeAndACKFirst *)
     cp_cur_point : option point;  (* context.counterparty_current_commitment_point *)
     cp_next_point : option point; (* context.counterparty_next_commitment_point *)
-    closed : bool           (* the channel was force-closed (it left the ChannelManager) *)
+    closed : bool;          (* the channel was force-closed (it left the ChannelManager) *)
+    hsk : hstate
   }.
 
-  (** State right after [channel_ready] was exchanged; [p0] is the peer's first point (number
-      [INITIAL]), [p1] the one from its [channel_ready] (number [INITIAL - 1]). *)
-  Definition init (p0 p1 : point) : st :=
-    mkSt (INITIAL - 1) (INITIAL - 1) false false false false false false (Some p0) (Some p1) false.
-  Definition init_log (p0 p1 : point) : list ev := [Announce INITIAL p0; Announce (INITIAL - 1) p1].
+  (** State right after funding_created/funding_signed: [AwaitingChannelReady] with no flag, or with
+      [WAITING_FOR_BATCH] for a batch-funded channel; both sides hold commitment number [INITIAL];
+      [p0] is the peer's first point (number [INITIAL]) from open_channel/accept_channel, stored
+      as [counterparty_next_commitment_point] until the peer's channel_ready shifts it. *)
+  Definition init (batch : bool) (p0 : point) : st :=
+    mkSt (INITIAL - 1) (INITIAL - 1) false false false false false false None (Some p0) false
+         (mkHs false false false batch None).
+  Definition init_log (p0 : point) : list ev := [Announce INITIAL p0].
 
   Inductive op : Type :=
   (** The user/HTLC layer wants a new commitment_signed out (send_htlc_and_commit, claim, fail,
       update_fee, holding-cell timer...). *)
   | OCommit (sync : bool)
-  (** A commitment_signed from the peer. [valid]: its signatures verify against the commitment
-      we build for [holder_next]. [need_cs]: it announced updates we must commit back. *)
-  | ORecvCS (valid need_cs sync : bool)
+  (** A commitment_signed from the peer. [sig_ok]: its commitment signature verifies against the
+      commitment we build for [holder_next]; [nsig] = [htlc_signatures.len()], [nnd] = number of
+      non-dust HTLCs of that commitment; [htlc_sigs_ok]: every HTLC signature that gets compared
+      verifies. [need_cs]: it announced updates we must commit back. *)
+  | ORecvCS (sig_ok : bool) (nsig nnd : Z) (htlc_sigs_ok : bool) (need_cs sync : bool)
   (** A revoke_and_ack from the peer. [chain_ok]: [provide_secret] accepts the secret.
       [commit]: receiving it makes us build a new commitment (holding cell freed, or
       [require_commitment]). *)
@@ -90,6 +111,13 @@ Section Machine.
   | OMonUpdate (sync : bool)
   (** All in-flight ChannelMonitorUpdates completed: [monitor_updating_restored]. *)
   | OMonitorDone
+  (** A channel_ready from the peer, at any time (first one, re-sent after reconnect, re-sent to
+      update the alias, forged). *)
+  | ORecvChannelReady (p : point)
+  (** The funding reached its depth: [check_get_channel_ready]. *)
+  | OOurChannelReady
+  (** The rest of the funding batch is ready: [set_batch_ready]. *)
+  | OBatchReady
   (** [peer_disconnected] (also what a reload does to the channel). *)
   | ODisconnect
   (** A channel_reestablish from the peer. *)
@@ -106,16 +134,16 @@ Section Machine.
   Definition upd_mon (s : st) (raa cs : bool) : st :=
     (* monitor_updating_paused(resend_raa, resend_commitment, ..) *)
     mkSt (holder_next s) (cp_next s) (awaiting_rr s) (disconnected s) true
-         (mp_raa s || raa) (mp_cs s || cs) (raa_first s) (cp_cur_point s) (cp_next_point s) (closed s).
+         (mp_raa s || raa) (mp_cs s || cs) (raa_first s) (cp_cur_point s) (cp_next_point s) (closed s) (hsk s).
 
   (** [build_commitment_no_status_check]: resend_order := RevokeAndACKFirst, AWAITING_REMOTE_REVOKE set *)
   Definition build_commitment (s : st) : st :=
     mkSt (holder_next s) (cp_next s) true (disconnected s) (mon_in_progress s)
-         (mp_raa s) (mp_cs s) true (cp_cur_point s) (cp_next_point s) (closed s).
+         (mp_raa s) (mp_cs s) true (cp_cur_point s) (cp_next_point s) (closed s) (hsk s).
 
   (** [ChannelState::can_generate_new_commitment] *)
   Definition can_generate_new_commitment (s : st) : bool :=
-    negb (awaiting_rr s) && negb (mon_in_progress s) && negb (disconnected s).
+    chan_ready (hsk s) && negb (awaiting_rr s) && negb (mon_in_progress s) && negb (disconnected s).
 
   (** [get_last_revoke_and_ack]: the only caller of [release_commitment_secret] *)
   Definition last_raa (s : st) : list ev := [Release (holder_next s + 2)].
@@ -125,7 +153,7 @@ Section Machine.
   (** [monitor_updating_restored] *)
   Definition restore (s : st) : st * list ev :=
     let s1 := mkSt (holder_next s) (cp_next s) (awaiting_rr s) (disconnected s) false
-                   false false (raa_first s) (cp_cur_point s) (cp_next_point s) (closed s) in
+                   false false (raa_first s) (cp_cur_point s) (cp_next_point s) (closed s) (hsk s) in
     if disconnected s then (s1, [])
     else (s1, (if mp_raa s then last_raa s else []) ++ (if mp_cs s then last_cs s else [])).
 
@@ -136,16 +164,16 @@ Section Machine.
       commitment, the channel is gone. *)
   Definition close (s : st) (evs : list ev) : st * list ev :=
     (mkSt (holder_next s) (cp_next s) (awaiting_rr s) (disconnected s) (mon_in_progress s)
-          (mp_raa s) (mp_cs s) (raa_first s) (cp_cur_point s) (cp_next_point s) true,
+          (mp_raa s) (mp_cs s) (raa_first s) (cp_cur_point s) (cp_next_point s) true (hsk s),
      evs ++ [SignHolder (holder_next s + 1)]).
 
 
   Definition set_mp_raa (s : st) (b : bool) : st :=
     mkSt (holder_next s) (cp_next s) (awaiting_rr s) (disconnected s) (mon_in_progress s)
-         b (mp_cs s) (raa_first s) (cp_cur_point s) (cp_next_point s) (closed s).
+         b (mp_cs s) (raa_first s) (cp_cur_point s) (cp_next_point s) (closed s) (hsk s).
   Definition set_mp_cs (s : st) (b : bool) : st :=
     mkSt (holder_next s) (cp_next s) (awaiting_rr s) (disconnected s) (mon_in_progress s)
-         (mp_raa s) b (raa_first s) (cp_cur_point s) (cp_next_point s) (closed s).
+         (mp_raa s) b (raa_first s) (cp_cur_point s) (cp_next_point s) (closed s) (hsk s).
 
   (** [channel_reestablish], the [required_revoke] decision; [None] = the final [else] that
       closes ("expecting a future local commitment transaction") *)
@@ -164,6 +192,43 @@ Section Machine.
        else (s1, raa_evs ++ last_cs s1))
     else close s1 raa_evs.
 
+  Definition set_hs (s : st) (h : hstate) : st :=
+    mkSt (holder_next s) (cp_next s) (awaiting_rr s) (disconnected s) (mon_in_progress s)
+         (mp_raa s) (mp_cs s) (raa_first s) (cp_cur_point s) (cp_next_point s) (closed s) h.
+
+  Definition opt_point_eqb (a : option point) (b : point) : bool :=
+    match a with Some x => point_eqb x b | None => false end.
+
+  (** [FundedChannel::channel_ready] *)
+  Definition recv_channel_ready (s : st) (p : point) : st * list ev :=
+    let h := hsk s in
+    if disconnected s then (s, [])   (* ChannelError::Ignore (workaround_lnd_bug_4006) *)
+    else
+      (* the [match &self.context.channel_state]: [inl] = check_reconnection, [inr h'] = carry on
+         with the new flags *)
+      let decision : bool * hstate :=
+        if chan_ready h then (true, h)
+        else
+          (* [flags.clone().clear(WAITING_FOR_BATCH) == THEIR_CHANNEL_READY] *)
+          if their_ready h && negb (our_ready h) then (true, h)
+          (* [flags.clone().clear(WAITING_FOR_BATCH).is_empty()] *)
+          else if negb (their_ready h) && negb (our_ready h)
+          then (false, mkHs false false true (wfb h) (sec1 h))
+          (* [flags == OUR_CHANNEL_READY] *)
+          else if our_ready h && negb (their_ready h) && negb (wfb h)
+          then (false, mkHs true false false false (sec1 h))
+          else (false, h) in
+      if fst decision then
+        let expected :=
+          if cp_next s =? INITIAL - 1 then cp_next_point s
+          else if cp_next s =? INITIAL - 2 then cp_cur_point s
+          else match sec1 h with Some sc => Some (pub sc) | None => None end in
+        if opt_point_eqb expected p then (s, []) else close s []
+      else
+        (mkSt (holder_next s) (cp_next s) (awaiting_rr s) (disconnected s) (mon_in_progress s)
+              (mp_raa s) (mp_cs s) (raa_first s) (cp_next_point s) (Some p) (closed s) (snd decision),
+         [Announce (cp_next s) p]).
+
   Definition step (s : st) (o : op) : st * list ev :=
     if closed s then
       match o with
@@ -176,22 +241,27 @@ Section Machine.
         if can_generate_new_commitment s
         then maybe_restore sync (upd_mon (build_commitment s) false true) []
         else (s, [])
-    | ORecvCS valid need_cs sync =>
+    | ORecvCS sig_ok nsig nnd htlc_sigs_ok need_cs sync =>
         (* commitment_signed_check_state *)
-        if disconnected s then close s []
-        (* validate_commitment_signed *)
-        else if negb valid then close s []
+        if negb (chan_ready (hsk s)) then close s []
+        else if disconnected s then close s []
+        (* validate_commitment_signed: commitment signature, then
+           [msg.htlc_signatures.len() != nondust_htlcs().len()], then each HTLC signature *)
+        else if negb sig_ok then close s []
+        else if negb (nsig =? nnd) then close s []
+        else if negb htlc_sigs_ok then close s []
         else
-          let evs := [ValidateHolder (holder_next s)] in
+          let evs := [ValidateHolder (holder_next s) nsig nnd] in
           (* commitment_signed_update_monitor: advance; resend_order := CommitmentFirst *)
           let s1 := mkSt (holder_next s - 1) (cp_next s) (awaiting_rr s) (disconnected s)
                          (mon_in_progress s) (mp_raa s) (mp_cs s) false
-                         (cp_cur_point s) (cp_next_point s) (closed s) in
+                         (cp_cur_point s) (cp_next_point s) (closed s) (hsk s) in
           let commit := need_cs && negb (awaiting_rr s1) in
           let s2 := if commit then build_commitment s1 else s1 in
           maybe_restore sync (upd_mon s2 true commit) evs
     | ORecvRAA sec next_point chain_ok commit sync =>
-        if disconnected s then close s []
+        if negb (chan_ready (hsk s)) then close s []
+        else if disconnected s then close s []
         else if match cp_cur_point s with
                 | Some p => negb (point_eqb (pub sec) p)
                 | None => false
@@ -204,15 +274,30 @@ Section Machine.
             let evs := evs ++ [StoreSecret (cp_next s + 1) sec; Announce (cp_next s - 1) next_point] in
             let s1 := mkSt (holder_next s) (cp_next s - 1) false (disconnected s)
                            (mon_in_progress s) (mp_raa s) (mp_cs s) (raa_first s)
-                           (cp_next_point s) (Some next_point) (closed s) in
+                           (cp_next_point s) (Some next_point) (closed s)
+                           (if cp_next s + 1 =? INITIAL - 1
+                            then mkHs (chan_ready (hsk s)) (our_ready (hsk s)) (their_ready (hsk s)) (wfb (hsk s)) (Some sec)
+                            else hsk s) in
             let s2 := if commit then build_commitment s1 else s1 in
             maybe_restore sync (upd_mon s2 false commit) evs
     | OMonUpdate sync => maybe_restore sync (upd_mon s false false) []
     | OMonitorDone =>
         if mon_in_progress s then restore s else (s, [])
+    | ORecvChannelReady p => recv_channel_ready s p
+    | OOurChannelReady =>
+        let h := hsk s in
+        if chan_ready h then (s, [])
+        else if negb (our_ready h) && negb (their_ready h) && negb (wfb h)
+        then (set_hs s (mkHs false true false false (sec1 h)), [])       (* set_our_channel_ready *)
+        else if negb (our_ready h) && their_ready h && negb (wfb h)
+        then (set_hs s (mkHs true false false false (sec1 h)), [])       (* -> ChannelReady *)
+        else (s, [])
+    | OBatchReady =>
+        let h := hsk s in
+        (set_hs s (mkHs (chan_ready h) (our_ready h) (their_ready h) false (sec1 h)), [])
     | ODisconnect =>
         (mkSt (holder_next s) (cp_next s) (awaiting_rr s) true (mon_in_progress s)
-              (mp_raa s) (mp_cs s) (raa_first s) (cp_cur_point s) (cp_next_point s) (closed s), [])
+              (mp_raa s) (mp_cs s) (raa_first s) (cp_cur_point s) (cp_next_point s) (closed s) (hsk s), [])
     | ORecvReest nl nr sec =>
         let secret_ok := match sec with SecMatch => true | _ => false end in
         (* the two numbers are u64 on the wire *)
@@ -228,7 +313,7 @@ Section Machine.
             (if secret_ok
              then (mkSt (holder_next s) (cp_next s) (awaiting_rr s) (disconnected s)
                         (mon_in_progress s) (mp_raa s) (mp_cs s) (raa_first s)
-                        (cp_cur_point s) (cp_next_point s) true, [])
+                        (cp_cur_point s) (cp_next_point s) true (hsk s), [])
              else close s [])
           else if (0 <? nr) && ((nr =? our) || (nr + 1 =? our)) && negb secret_ok then close s []
           else if nr + 1 <? our then (s, [])   (* ChannelError::Warn *)
@@ -236,7 +321,11 @@ Section Machine.
             (* clear_peer_disconnected *)
             let s0 := mkSt (holder_next s) (cp_next s) (awaiting_rr s) false (mon_in_progress s)
                            (mp_raa s) (mp_cs s) (raa_first s) (cp_cur_point s) (cp_next_point s)
-                           (closed s) in
+                           (closed s) (hsk s) in
+            if negb (chan_ready (hsk s)) then
+              (* AwaitingChannelReady: nothing to retransmit but (possibly) our channel_ready *)
+              (if (negb (our_ready (hsk s)) || mon_in_progress s) && negb (nr =? 0) then close s0 [] else (s0, []))
+            else
             match reest_revoke s0 nr our with
             | None => close s0 []
             | Some (s1, raa_evs) => reest_commit s1 raa_evs nl
@@ -244,7 +333,7 @@ Section Machine.
     | OForceClose => close s []
     | OChainClose =>
         (mkSt (holder_next s) (cp_next s) (awaiting_rr s) (disconnected s) (mon_in_progress s)
-              (mp_raa s) (mp_cs s) (raa_first s) (cp_cur_point s) (cp_next_point s) true, [])
+              (mp_raa s) (mp_cs s) (raa_first s) (cp_cur_point s) (cp_next_point s) true (hsk s), [])
     | OResign => (s, [])
     end.
 
@@ -289,9 +378,10 @@ Section Machine.
       if p_signed g then None (* after broadcasting, nothing else may happen: no later release *)
       else
       match e with
-      | ValidateHolder k =>
-          (* holder numbers step by exactly one *)
-          if k =? p_vh g - 1 then Some (mkPol k (p_rv g) (p_st g) (p_ann g) false) else None
+      | ValidateHolder k nsig nnd =>
+          (* holder numbers step by exactly one, and the commitment is FULLY signed: one counterparty
+             HTLC signature per non-dust HTLC *)
+          if (k =? p_vh g - 1) && (nsig =? nnd) then Some (mkPol k (p_rv g) (p_st g) (p_ann g) false) else None
       | Release k =>
           (* exactly the predecessor of the latest validated commitment, hence only after a
              newer fully signed one is held; never the initial one without a successor *)
@@ -308,7 +398,10 @@ Section Machine.
           (* stored only after validation, only if its point is the one announced for [k] *)
           if (k =? p_rv g) && (p_st g =? k + 1) && announced (p_ann g) k (pub s)
           then Some (mkPol (p_vh g) (p_rv g) k (p_ann g) false) else None
-      | Announce k p => Some (mkPol (p_vh g) (p_rv g) (p_st g) ((k, p) :: p_ann g) false)
+      | Announce k p =>
+          (* the point of a commitment number is announced once and never replaced *)
+          if existsb (fun kp : Z * point => fst kp =? k) (p_ann g) then None
+          else Some (mkPol (p_vh g) (p_rv g) (p_st g) ((k, p) :: p_ann g) false)
       | SignHolder _ => None
       end
     end.
@@ -321,33 +414,42 @@ Section Machine.
 End Machine.
 
 Arguments Release {secret point} k.
-Arguments ValidateHolder {secret point} k.
+Arguments ValidateHolder {secret point} k nsig nnd.
 Arguments SignCounterparty {secret point} k.
 Arguments SignHolder {secret point} k.
 Arguments ValidateRevocation {secret point} k.
 Arguments StoreSecret {secret point} k s.
 Arguments Announce {secret point} k p.
-Arguments holder_next {point} s.
-Arguments cp_next {point} s.
-Arguments awaiting_rr {point} s.
-Arguments disconnected {point} s.
-Arguments mon_in_progress {point} s.
-Arguments mp_raa {point} s.
-Arguments mp_cs {point} s.
-Arguments raa_first {point} s.
-Arguments cp_cur_point {point} s.
-Arguments cp_next_point {point} s.
-Arguments closed {point} s.
+Arguments holder_next {secret point} s.
+Arguments cp_next {secret point} s.
+Arguments awaiting_rr {secret point} s.
+Arguments disconnected {secret point} s.
+Arguments mon_in_progress {secret point} s.
+Arguments mp_raa {secret point} s.
+Arguments mp_cs {secret point} s.
+Arguments raa_first {secret point} s.
+Arguments cp_cur_point {secret point} s.
+Arguments cp_next_point {secret point} s.
+Arguments closed {secret point} s.
+Arguments hsk {secret point} s.
+Arguments chan_ready {secret} h.
+Arguments our_ready {secret} h.
+Arguments their_ready {secret} h.
+Arguments wfb {secret} h.
+Arguments sec1 {secret} h.
 Arguments p_vh {point} p.
 Arguments p_rv {point} p.
 Arguments p_st {point} p.
 Arguments p_ann {point} p.
 Arguments p_signed {point} p.
 Arguments OCommit {secret point} sync.
-Arguments ORecvCS {secret point} valid need_cs sync.
+Arguments ORecvCS {secret point} sig_ok nsig nnd htlc_sigs_ok need_cs sync.
 Arguments ORecvRAA {secret point} s next_point chain_ok commit sync.
 Arguments OMonUpdate {secret point} sync.
 Arguments OMonitorDone {secret point}.
+Arguments ORecvChannelReady {secret point} p.
+Arguments OOurChannelReady {secret point}.
+Arguments OBatchReady {secret point}.
 Arguments ODisconnect {secret point}.
 Arguments ORecvReest {secret point} next_local next_remote sec.
 Arguments OForceClose {secret point}.
